@@ -37,6 +37,8 @@ pub struct TreeSpec {
     pub loading_completed: bool,
     /// prune_after_blocks of the node under test
     pub pab: u64,
+    /// preferred index j for the "parked then connected" order (block j + 1 delivered before block j)
+    pub park_at: Option<usize>,
 }
 
 pub struct BuiltTree {
@@ -152,7 +154,14 @@ pub async fn build_node(
                 }
             }
             let seed = i as u64 * 7919 + 13;
-            let b = make_block(&builder, parent.hash, ts, good_txs.clone(), ns.gt, seed).await.ok()?;
+            // every fourth ticket-carrying block moves its transfer inside the golden-ticket
+            // transaction itself (a value-carrying transaction of type GoldenTicket)
+            let value_gt = ns.gt && i % 4 == 1 && !good_txs.is_empty() && bad_txs.is_empty();
+            let b = if value_gt {
+                make_block_value_gt(&builder, parent.hash, ts, &good_txs[0], seed).await.ok()?
+            } else {
+                make_block(&builder, parent.hash, ts, good_txs.clone(), ns.gt, seed).await.ok()?
+            };
             let ok = match futures_catch(AssertUnwindSafe(b.validate(
                 &builder.blockchain,
                 &builder.blockchain.utxoset,
@@ -211,6 +220,58 @@ pub async fn build_node(
         is_valid = false;
     }
     Some((delivered, valid, is_valid))
+}
+
+/// a block whose golden-ticket transaction also carries the value slips of `transfer`
+pub async fn make_block_value_gt(
+    node: &Node,
+    parent_hash: SaitoHash,
+    timestamp: u64,
+    transfer: &saito_core::core::consensus::transaction::Transaction,
+    gt_seed: u64,
+) -> Result<Block, String> {
+    use saito_core::core::consensus::transaction::{Transaction, TransactionType};
+    let parent = node
+        .blockchain
+        .get_block(&parent_hash)
+        .ok_or_else(|| "parent not found for golden ticket".to_string())?;
+    let base = golden_ticket_tx(parent_hash, parent.difficulty, &node.pk, &node.sk, gt_seed).await;
+    let mut gttx = Transaction::default();
+    gttx.transaction_type = TransactionType::GoldenTicket;
+    gttx.timestamp = base.timestamp;
+    gttx.data = base.data.clone();
+    for sl in &transfer.from {
+        let mut sl = sl.clone();
+        sl.generate_utxoset_key();
+        gttx.add_from_slip(sl);
+    }
+    for o in &transfer.to {
+        let mut o2 = Slip::default();
+        o2.public_key = o.public_key;
+        o2.amount = o.amount;
+        o2.slip_type = o.slip_type;
+        gttx.add_to_slip(o2);
+    }
+    gttx.sign(&node.sk);
+    gttx.generate(&node.pk, 0, 0);
+    let mut map = fixed_tx_map();
+    let mut block = Block::create(
+        &mut map,
+        parent_hash,
+        &node.blockchain,
+        timestamp,
+        &node.pk,
+        &node.sk,
+        Some(gttx),
+        &node.cfg,
+        &node.storage,
+    )
+    .await
+    .map_err(|e| format!("Block::create failed: {:?}", e))?;
+    block.generate().map_err(|e| format!("generate failed: {:?}", e))?;
+    block.sign(&node.sk);
+    block.generate().map_err(|e| format!("generate failed: {:?}", e))?;
+    Ok(block)
 }
 
 /// spends recorded on the path must use the spec of the nodes actually built:
@@ -395,6 +456,12 @@ pub fn snapshot_rows(int: &mut Interned, code: u64, steps: u64, s: &ChainSnapsho
 
 /// Delivers `order` (indices into the tree, duplicates allowed) to a fresh node.
 pub async fn deliver(t: &BuiltTree, int: &mut Interned, order: &[usize], allow_orphans: bool) -> RunOut {
+    deliver_with(t, int, order, allow_orphans, None).await
+}
+
+/// as `deliver`; `parked` names one tree block that may be delivered before its parent even if
+/// orphan deliveries are otherwise skipped
+pub async fn deliver_with(t: &BuiltTree, int: &mut Interned, order: &[usize], allow_orphans: bool, parked: Option<usize>) -> RunOut {
     let mut np = params(t.spec.gp, t.spec.loading_completed);
     np.prune_after_blocks = t.spec.pab;
     let mut node = Node::new(&np, 1);
@@ -416,7 +483,7 @@ pub async fn deliver(t: &BuiltTree, int: &mut Interned, order: &[usize], allow_o
             && !node.blockchain.blocks.is_empty()
             && block.previous_block_hash != [0u8; 32];
         if !parent_known && !inert_orphan {
-            if !allow_orphans {
+            if !allow_orphans && parked != Some(i) {
                 out.skipped += 1;
                 continue;
             }
@@ -909,7 +976,7 @@ pub fn random_spec(rng: &mut Rng, max_nodes: usize, gp: u64, invalid_pct: u64, l
         });
     }
     let pab = *rng.pick(&[2u64, 3, 8, 8]);
-    TreeSpec { gp, nodes, n_outputs, loading_completed: loading, pab }
+    TreeSpec { gp, nodes, n_outputs, loading_completed: loading, pab, park_at: None }
 }
 
 /// Scripted two-branch forks: common prefix, a main branch and a side branch with chosen
@@ -989,8 +1056,24 @@ pub fn fork_family(rng: &mut Rng, k: usize) -> TreeSpec {
             bf_boost: 0,
         });
     }
+    if (k / 41) % 2 == 1 && s >= m {
+        // lead change back: the main branch grows past the side branch again
+        let mut parent = main_tip;
+        for i in 0..(s - m + 1) {
+            nodes.push(NodeSpec {
+                parent: Some(parent),
+                gt: true,
+                invalid: false,
+                dt: dt_main + rng.below(3),
+                spend: Some((prefix + m + i + 1) % n_outputs),
+                bad_spend: false,
+                bf_boost: 0,
+            });
+            parent = nodes.len() - 1;
+        }
+    }
     let pab = if deep { 8 } else { [2u64, 8, 3][(k / 19) % 3] };
-    TreeSpec { gp, nodes, n_outputs, loading_completed: (k / 37) % 3 == 1, pab }
+    TreeSpec { gp, nodes, n_outputs, loading_completed: (k / 37) % 3 == 1, pab, park_at: None }
 }
 
 /// Long chains with late forks, for the purge regime (ids beyond 2 * genesis_period, ring
@@ -1053,7 +1136,33 @@ pub fn long_family(rng: &mut Rng, k: usize) -> TreeSpec {
         });
         parent = nodes.len() - 1;
     }
-    TreeSpec { gp, nodes, n_outputs, loading_completed: (k / 9) % 4 == 3, pab: 1_000_000 }
+    TreeSpec { gp, nodes, n_outputs, loading_completed: (k / 9) % 4 == 3, pab: 1_000_000, park_at: None }
+}
+
+/// Linear chains for the "parked then connected" order: block q + 1 (id q + 2) is delivered before
+/// block q; q is chosen so that the parked block has id 2gp - 1, 2gp (ring slot 0) or 2gp + 1; the
+/// child of the parked block is invalid in half of the instances (the candidate [child, parked]
+/// then winds the parked block and unwinds it again with nothing to restore).
+pub fn parked_family(rng: &mut Rng, k: usize) -> TreeSpec {
+    let gp = [3u64, 2, 4, 3][k % 4];
+    let q = (2 * gp as usize) - 3 + (k / 4) % 3; // index of the late parent
+    let n = q + 4 + (k / 12) % 2;
+    let inv_child = (k / 2) % 2 == 0;
+    let dts = [2 * HEARTBEAT, 1000 * HEARTBEAT, 10 * HEARTBEAT];
+    let n_outputs = 6;
+    let mut nodes = vec![NodeSpec { parent: None, gt: false, invalid: false, dt: 0, spend: None, bad_spend: false, bf_boost: 0 }];
+    for i in 0..n {
+        nodes.push(NodeSpec {
+            parent: Some(i),
+            gt: true,
+            invalid: inv_child && i + 1 == q + 2,
+            dt: dts[(k / 3) % 3] + rng.below(3),
+            spend: if i < n_outputs { Some(i) } else { None },
+            bad_spend: false,
+            bf_boost: 0,
+        });
+    }
+    TreeSpec { gp, nodes, n_outputs, loading_completed: false, pab: [2u64, 1_000_000][(k / 5) % 2], park_at: Some(q) }
 }
 
 /// a delivery order: parents-before-children mostly, sometimes shuffled, with duplicates
@@ -1184,8 +1293,11 @@ pub async fn run_property(profile: &Profile, args: &Args) {
     let mut model_beyond = 0usize;
     let n_family = if thorough { 1500 } else { 330 };
     let n_long = if thorough { 400 } else { 80 };
-    for ti in 0..(n_trees + n_family + n_long) {
-        let spec = if ti >= n_trees + n_family {
+    let n_parked = if thorough { 96 } else { 24 };
+    for ti in 0..(n_trees + n_family + n_long + n_parked) {
+        let spec = if ti >= n_trees + n_family + n_long {
+            parked_family(&mut rng, ti - n_trees - n_family - n_long)
+        } else if ti >= n_trees + n_family {
             long_family(&mut rng, ti - n_trees - n_family)
         } else if ti < n_family {
             fork_family(&mut rng, ti)
@@ -1234,11 +1346,32 @@ pub async fn run_property(profile: &Profile, args: &Args) {
                     order.push(j);
                 }
             }
-            if profile.allow_orphans && !orphans_now && !loading {
+            // "parked then connected": one block is delivered just before its parent, two above the tip
+            // (tree order with one adjacent parent / child pair swapped). The out-of-order branch has
+            // nothing to clear there; the block is stored off-chain and joins the chain through its child.
+            let mut parked_order = false;
+            let mut parked_block: Option<usize> = None;
+            if !loading && oi == 2 {
+                let pairs: Vec<usize> = (1..t.blocks.len().saturating_sub(1))
+                    .filter(|j| parents[*j + 1] == Some(*j) && parents[*j] == Some(*j - 1))
+                    .collect();
+                if !pairs.is_empty() {
+                    let j = match t.spec.park_at {
+                        Some(q) if pairs.contains(&q) => q,
+                        _ => pairs[rng.below(pairs.len() as u64) as usize],
+                    };
+                    order = (0..t.blocks.len()).collect();
+                    order.swap(j, j + 1);
+                    parked_order = true;
+                    parked_block = Some(j + 1);
+                }
+            }
+            if profile.allow_orphans && !orphans_now && !loading && !parked_order {
                 // no orphan deliveries in this history: repair the order instead of dropping blocks
                 order = repair_order(&order, &parents);
             }
-            let out = deliver(&t, &mut int, &order, orphans_now).await;
+            let out = deliver_with(&t, &mut int, &order, orphans_now, parked_block).await;
+            summary.count("parked_order", &format!("{}", parked_order));
             summary.count("deliveries_skipped_parent_unknown", &format!("{}", out.skipped.min(4)));
             let order = out.delivered.clone();
             if args.replay.is_some() {
@@ -1302,13 +1435,14 @@ pub async fn run_property(profile: &Profile, args: &Args) {
                 }
                 prev = o.clone();
             }
-            summary.count("generator", if ti >= n_trees + n_family { "long-chain" } else if family { "fork-family" } else { "random" });
+            summary.count("generator", if ti >= n_trees + n_family + n_long { "parked" } else if ti >= n_trees + n_family { "long-chain" } else if family { "fork-family" } else { "random" });
             summary.count("blocks", &format!("{}", t.blocks.len()));
             summary.count("gp", &format!("{}", t.spec.gp));
             summary.count("reorgs", &format!("{}", reorgs.min(4)));
             summary.count("rejected", &format!("{}", rejected.min(4)));
             summary.count("in_order", &format!("{}", order.iter().enumerate().all(|(i, x)| i == *x)));
             summary.count("orphan_history", &format!("{}", out.first_orphan.is_some()));
+            summary.count("orphan_parked_without_effect", &format!("{}", out.first_orphan.is_some() && out.first_orphan_effect.is_none()));
             summary.count("loading_completed", &format!("{}", loading));
             summary.count("retry_or_too_old_answers", &format!("{}", out.obs.iter().filter(|o| o.code == 4).count().min(4)));
             summary.count("purge_known_class", out.first_purge_known.map(|(_, id)| id).unwrap_or("none"));
@@ -1329,7 +1463,7 @@ pub async fn run_property(profile: &Profile, args: &Args) {
             // the Coq chain model (model/ChainPurge.v) covers all block ids; histories in which a
             // block arrives before its parent stay outside (listed finding orphan-branch).
             // Row 1 of every observation gets genesis_block_id appended for the comparison.
-            if out.first_orphan.is_none() || std::env::var("VERIF_MODEL_ORPHANS").is_ok() {
+            if out.first_orphan.is_none() || out.first_orphan_effect.is_none() || std::env::var("VERIF_MODEL_ORPHANS").is_ok() {
                 let rows_p: Vec<Vec<Vec<u64>>> = out
                     .rows
                     .iter()
